@@ -150,6 +150,46 @@ func (r *edgeRoles) edgeUpdates(mu *ssa.MapUpdate) []edgeUpdate {
 	return out
 }
 
+// staleEntry: the struct stored back by mu was read from the map before another update of the same map that
+// comes before mu — `a, b := m[x], m[y]; …; m[x], m[y] = a, b` loses the first update when x == y (a self-edge).
+func staleEntry(mu *ssa.MapUpdate) bool {
+	ld, ok := mu.Value.(*ssa.UnOp)
+	if !ok || ld.Op != token.MUL {
+		return false
+	}
+	cell, ok := ld.X.(*ssa.Alloc)
+	if !ok || cell.Referrers() == nil {
+		return false
+	}
+	mapField := an.AccessPath(mu.Map).LastField()
+	var read ssa.Instruction
+	for _, ref := range *cell.Referrers() {
+		if st, ok := ref.(*ssa.Store); ok && st.Addr == ssa.Value(cell) {
+			v := st.Val
+			if ex, ok := v.(*ssa.Extract); ok {
+				v = ex.Tuple
+			}
+			if lk, ok := v.(*ssa.Lookup); ok {
+				read = lk
+			}
+		}
+	}
+	if read == nil {
+		return false
+	}
+	stale := false
+	an.EachInstr(mu.Parent(), func(in ssa.Instruction) {
+		other, ok := in.(*ssa.MapUpdate)
+		if !ok || other == mu || an.AccessPath(other.Map).LastField() != mapField {
+			return
+		}
+		if an.Dominates(read, other) && an.Dominates(other, mu) {
+			stale = true
+		}
+	})
+	return stale
+}
+
 // entryKeyOf: for a struct-valued edge map, the key with which the local struct stored by mu was read.
 func entryKeyOf(mu *ssa.MapUpdate) ssa.Value {
 	ld, ok := mu.Value.(*ssa.UnOp)
